@@ -1020,6 +1020,72 @@ func hasEmptyishSkip(v any) bool {
 	return false
 }
 
+// injectHostileAnchors: the document with anchors and aliases that close cycles or feed merges with
+// sequences that contain themselves — texts yaml.v3 accepts and Parse must answer (result or error).
+func injectHostileAnchors(r *core.Rand, src []byte) []byte {
+	var root yaml.Node
+	if yaml.Unmarshal(src, &root) != nil || len(root.Content) != 1 {
+		return nil
+	}
+	var maps, seqs []*yaml.Node
+	var walk func(n *yaml.Node)
+	walk = func(n *yaml.Node) {
+		switch n.Kind {
+		case yaml.MappingNode:
+			maps = append(maps, n)
+		case yaml.SequenceNode:
+			seqs = append(seqs, n)
+		}
+		for _, ch := range n.Content {
+			walk(ch)
+		}
+	}
+	walk(root.Content[0])
+	if len(maps) == 0 {
+		return nil
+	}
+	key := func(s string) *yaml.Node { return &yaml.Node{Kind: yaml.ScalarNode, Tag: "!!str", Value: s} }
+	merge := func() *yaml.Node { return &yaml.Node{Kind: yaml.ScalarNode, Tag: "!!merge", Value: "<<"} }
+	m := core.Pick(r, maps)
+	switch r.Intn(6) {
+	case 0: // <<: &x [*x]
+		sq := &yaml.Node{Kind: yaml.SequenceNode, Tag: "!!seq", Anchor: "hx", Style: yaml.FlowStyle}
+		sq.Content = []*yaml.Node{{Kind: yaml.AliasNode, Alias: sq, Value: "hx"}}
+		m.Content = append(m.Content, merge(), sq)
+	case 1: // <<: &y [[*y]]
+		sq := &yaml.Node{Kind: yaml.SequenceNode, Tag: "!!seq", Anchor: "hy", Style: yaml.FlowStyle}
+		sq.Content = []*yaml.Node{{Kind: yaml.SequenceNode, Tag: "!!seq", Style: yaml.FlowStyle, Content: []*yaml.Node{{Kind: yaml.AliasNode, Alias: sq, Value: "hy"}}}}
+		m.Content = append(m.Content, merge(), sq)
+	case 2: // a mapping that merges itself
+		m.Anchor = "hm"
+		m.Content = append(m.Content, merge(), &yaml.Node{Kind: yaml.AliasNode, Alias: m, Value: "hm"})
+	case 3: // a mapping that holds itself as a value
+		m.Anchor = "hv"
+		m.Content = append(m.Content, key("zz_self"), &yaml.Node{Kind: yaml.AliasNode, Alias: m, Value: "hv"})
+	case 4: // a sequence that holds itself
+		if len(seqs) == 0 {
+			return nil
+		}
+		sq := core.Pick(r, seqs)
+		sq.Anchor = "hs"
+		sq.Content = append(sq.Content, &yaml.Node{Kind: yaml.AliasNode, Alias: sq, Value: "hs"})
+	case 5: // a nested mapping that merges an ancestor's sibling which merges back
+		m.Anchor = "ha"
+		inner := &yaml.Node{Kind: yaml.MappingNode, Tag: "!!map", Anchor: "hb", Style: yaml.FlowStyle}
+		inner.Content = []*yaml.Node{merge(), {Kind: yaml.AliasNode, Alias: m, Value: "ha"}}
+		m.Content = append(m.Content, key("zz_inner"), inner, merge(), &yaml.Node{Kind: yaml.AliasNode, Alias: inner, Value: "hb"})
+	}
+	b, err := yaml.Marshal(&root)
+	if err != nil {
+		return nil
+	}
+	var check yaml.Node
+	if yaml.Unmarshal(b, &check) != nil {
+		return nil
+	}
+	return b
+}
+
 // c13ByteLevel: support for the byte-level half of C13 (not a proof): renderings of generated documents
 // mutated at the byte level go through Parse with recover and a timeout; every input the first stage
 // accepts continues into the model correspondence and the completeness oracles.
@@ -1036,7 +1102,14 @@ func c13ByteLevel(c *ctx, rng *core.Rand, shards []*core.Session) {
 			continue
 		}
 		b := append([]byte(nil), src...)
-		for k := 1 + rng.Intn(4); k > 0 && len(b) > 0; k-- {
+		hostile := false
+		if rng.Intn(5) == 0 {
+			if hb := injectHostileAnchors(rng, src); hb != nil {
+				b, hostile = hb, true
+				c.res.Hist("bytes.hostile-anchors")
+			}
+		}
+		for k := 1 + rng.Intn(4); !hostile && k > 0 && len(b) > 0; k-- {
 			pos := rng.Intn(len(b))
 			switch rng.Intn(6) {
 			case 0:
@@ -1067,6 +1140,9 @@ func c13ByteLevel(c *ctx, rng *core.Rand, shards []*core.Session) {
 			pn  string
 		}
 		ch := make(chan res, 1)
+		if hostile {
+			core.Current(map[string]any{"property": "C13", "what": "pipeline.Parse on this document", "input": map[string]any{"document": string(b)}})
+		}
 		go func() {
 			var r res
 			func() {
